@@ -1,6 +1,6 @@
 """The recorded pass of the two experiments on independent changes (DESIGN §7.1, §8):
-   * seeded property-BREAKING changes (four rounds; stored as seeded/<id>-<A…H>/), which the target check must catch, and
-   * HARMLESS changes (stored as harmless/<id>-<A…C>/), on which it must stay silent.
+   * seeded property-BREAKING changes (five rounds; stored as seeded/<id>-<A…J>/), which the target check must catch, and
+   * HARMLESS changes (two rounds; stored as harmless/<id>-<A…F>/), on which it must stay silent.
 
   python -m harness.campaign confirm [--jobs 8] [ids…]   phase A: every change is confirmed in its own scratch worktree of /repo
         (applies — re-based with --3way where later fix: commits moved its lines —, the repository's test-suite passes with it, its
@@ -24,7 +24,8 @@ from concurrent.futures import ThreadPoolExecutor
 VERIF = os.path.dirname(os.path.dirname(os.path.abspath(__file__)))
 PY = "/venv/bin/python"
 TARGET = os.environ.get("SEED_REPO", "/repo")
-ROUNDS = (("seed", "AB", "AB"), ("seed2", "AB", "CD"), ("seed3", "AB", "EF"), ("seed4", "AB", "GH"))
+ROUNDS = (("seed", "AB", "AB"), ("seed2", "AB", "CD"), ("seed3", "AB", "EF"), ("seed4", "AB", "GH"), ("seed5", "AB", "IJ"))
+HARM_ROUNDS = (("harm_inbox", "ABC", "ABC"), ("harm_inbox2", "ABC", "DEF"))
 ALL = ["C%02d" % i for i in range(1, 21)]
 
 
@@ -50,13 +51,14 @@ def changes(ids):
                     p = os.path.join(d, "patch_%s.diff" % x)
                 if os.path.exists(p) and os.path.exists(os.path.join(d, "meta_%s.json" % x)):
                     out.append(("seeded", pid, l, p, os.path.join(d, "demo_%s.py" % x), os.path.join(d, "meta_%s.json" % x), rnd))
-        d = os.path.join(VERIF, "notes", "harm_inbox", pid)
-        for x in "ABC":
-            p = os.path.join(d, "patch_%s_rebased.diff" % x)
-            if not os.path.exists(p):
-                p = os.path.join(d, "patch_%s.diff" % x)
-            if os.path.exists(p):
-                out.append(("harmless", pid, x, p, os.path.join(d, "demo_%s.py" % x), os.path.join(d, "meta_%s.json" % x), "harm"))
+        for rnd, xs, labels in HARM_ROUNDS:
+            d = os.path.join(VERIF, "notes", rnd, pid)
+            for x, l in zip(xs, labels):
+                p = os.path.join(d, "patch_%s_rebased.diff" % x)
+                if not os.path.exists(p):
+                    p = os.path.join(d, "patch_%s.diff" % x)
+                if os.path.exists(p):
+                    out.append(("harmless", pid, l, p, os.path.join(d, "demo_%s.py" % x), os.path.join(d, "meta_%s.json" % x), rnd))
     return out
 
 
